@@ -1,0 +1,41 @@
+//go:build verif
+
+package mqtt
+
+import "net"
+
+// Verification hooks: exported views on unexported pure functions plus the
+// read-buffer size switch. Compiled only with the "verif" build tag.
+
+// VerifEncodeValue exposes encodeValue.
+func VerifEncodeValue(packet net.Buffers, seqNo uint64) net.Buffers {
+	return encodeValue(packet, seqNo)
+}
+
+// VerifDecodeValue exposes decodeValue.
+func VerifDecodeValue(buf []byte) (packet []byte, seqNo uint64, err error) {
+	return decodeValue(buf)
+}
+
+// VerifStringCheck exposes stringCheck.
+func VerifStringCheck(s string) error { return stringCheck(s) }
+
+// VerifTopicCheck exposes topicCheck.
+func VerifTopicCheck(s string) error { return topicCheck(s) }
+
+// VerifNewCONNREQ exposes Config.newCONNREQ.
+func VerifNewCONNREQ(c *Config, clientID []byte) []byte { return c.newCONNREQ(clientID) }
+
+// VerifConfigValid exposes Config.valid.
+func VerifConfigValid(c *Config) error { return c.valid() }
+
+// VerifSetReadBufSize changes the read-buffer size for new connections and
+// returns a function which restores the previous value.
+func VerifSetReadBufSize(n int) (restore func()) {
+	old := readBufSize
+	readBufSize = n
+	return func() { readBufSize = old }
+}
+
+// VerifNonNilIsAny exposes nonNilIsAny.
+func VerifNonNilIsAny(err error, matches []error) bool { return nonNilIsAny(err, matches) }
